@@ -21,6 +21,7 @@ import math
 import mmap
 import os
 import pickle
+import signal
 import shutil
 import sys
 import tempfile
@@ -35,6 +36,19 @@ INFLIGHT_SIZE = 1 << 20
 
 class HarnessError(Exception):
     pass
+
+
+class CaseTimeout(BaseException):
+    """Raised by the per-case alarm; BaseException so that no `except Exception` around a library call swallows it."""
+
+
+CASE_LIMIT = float(os.environ.get('VERIF_CASE_LIMIT', '300'))
+
+
+def _on_alarm(signum, frame):
+    # a single generated case ran for minutes although cases take milliseconds: by the brief a time budget hit is
+    # "inconclusive" (exit 2), never a violation
+    raise CaseTimeout('a single case exceeded %.0f s (inconclusive)' % CASE_LIMIT)
 
 
 class Res:
@@ -264,7 +278,11 @@ def _collect_leg(leg, n, seed, known, inflight, out, shard=(0, 1)):
     @given(leg.strategy)
     def collect(case):
         inflight.set(leg.name, case)
-        note_new(case, leg.run(case))
+        signal.setitimer(signal.ITIMER_REAL, CASE_LIMIT)
+        try:
+            note_new(case, leg.run(case))
+        finally:
+            signal.setitimer(signal.ITIMER_REAL, 0)
 
     collect()
 
@@ -306,6 +324,7 @@ def _worker_main(modname, tier, widx, nworkers, seed, stale, rundir, stage_dir):
         import importlib
         import logging
         logging.getLogger('be.kuleuven.dtai.distance').setLevel(logging.CRITICAL)
+        signal.signal(signal.SIGALRM, _on_alarm)
         mod = importlib.import_module(modname)
         known = Known(mod, stale)
         inflight = _Inflight(os.path.join(rundir, 'w%d.inflight' % widx))
